@@ -3,6 +3,7 @@ import Redproxy.Lemmas.Rd
 import Redproxy.Lemmas.RdEval
 import Redproxy.Lemmas.AddrText
 import Redproxy.Model.Http
+import Redproxy.Lemmas.HttpLine
 /-!
 # C03 — destination integrity through every protocol re-encoding
 
@@ -481,5 +482,69 @@ theorem readLine_eof (x : Bytes) (w : W) (hlf : 10 ∉ x) (hu : utf8Valid x = tr
     exact hlf (List.mem_of_getLast? e)
   refine ⟨[], ?_⟩
   simp [Http.readLine, runFlat, hfu x hlf, hu, hl, Rd.failWith]
+
+/-! ## line framing, second layer: the header block written by `write_to` is read back header for header -/
+
+/-- a header line the writer can emit without changing its meaning: no colon or LF in the name, no LF in the value, the
+value ends in a printable ASCII byte (so `trim_end` removes the CRLF and nothing else), the line is UTF-8 -/
+def HeaderOk (kv : Bytes × Bytes) : Prop :=
+  0x3A ∉ kv.1 ∧ 10 ∉ kv.1 ∧ 13 ∉ kv.2 ∧ 10 ∉ kv.2 ∧ (∃ v' b, kv.2 = v' ++ [b] ∧ 0x20 < b ∧ b < 0x80) ∧
+  utf8Valid (kv.1 ++ Http.colonSp ++ kv.2 ++ [13, 10]) = true
+
+/-- the bytes `headerLines` writes -/
+def headBytes (hs : List (Bytes × Bytes)) : Bytes :=
+  (hs.map fun kv => kv.1 ++ Http.colonSp ++ kv.2 ++ Http.crlf).flatten
+
+theorem headerLines_writes (hs : List (Bytes × Bytes)) (s : Bytes) (w : W) :
+    runFlat (Http.headerLines hs) s w = (.ok (), s, { w with pending := w.pending ++ headBytes hs }) := by
+  induction hs generalizing w with
+  | nil => simp [Http.headerLines, headBytes]
+  | cons kv hs ih =>
+    obtain ⟨k, v⟩ := kv
+    simp [Http.headerLines, runFlat_bind, ih, headBytes, List.append_assoc]
+
+open HttpLine in
+/-- `read_headers` over what `write_to` wrote (header lines, then the blank line) returns exactly the headers, in order,
+and leaves every byte behind the blank line unread — for every header list, every continuation -/
+theorem headers_roundtrip (hs acc : List (Bytes × Bytes)) (rest : Bytes) (w : W) (fuel : Nat)
+    (hok : ∀ kv ∈ hs, HeaderOk kv) (hf : hs.length < fuel) :
+    runFlat (Http.readHeaders fuel acc) (headBytes hs ++ Http.crlf ++ rest) w = (.ok (acc.reverse ++ hs), rest, w) := by
+  induction hs generalizing acc fuel with
+  | nil =>
+    cases fuel with
+    | zero => simp at hf
+    | succ f =>
+      have h := readLine_exact [13] rest w (by decide) (by decide)
+      simp only [List.cons_append, List.nil_append] at h
+      simp [Http.readHeaders, runFlat_bind, headBytes, Http.crlf, h, trimEnd_blank]
+  | cons kv hs ih =>
+    obtain ⟨k, v⟩ := kv
+    cases fuel with
+    | zero => simp at hf
+    | succ f =>
+      obtain ⟨hc, hkl, hvr, hvl, ⟨v', b, hv, hb⟩, hu⟩ := hok (k, v) (by simp)
+      have hlf : 10 ∉ k ++ Http.colonSp ++ v ++ [13] := by
+        simp [Http.colonSp, hkl, hvl]
+      have hu' : utf8Valid ((k ++ Http.colonSp ++ v ++ [13]) ++ [10]) = true := by
+        simpa [List.append_assoc] using hu
+      have h := readLine_exact (k ++ Http.colonSp ++ v ++ [13]) (headBytes hs ++ Http.crlf ++ rest) w hlf hu'
+      have hbytes : headBytes ((k, v) :: hs) ++ Http.crlf ++ rest =
+          (k ++ Http.colonSp ++ v ++ [13]) ++ 10 :: (headBytes hs ++ Http.crlf ++ rest) := by
+        simp [headBytes, Http.crlf, List.append_assoc]
+      have htrim : trimEnd ((k ++ Http.colonSp ++ v ++ [13]) ++ [10]) = k ++ Http.colonSp ++ v := by
+        have := trimEnd_crlf (k ++ Http.colonSp ++ v') b hb
+        subst hv
+        simpa [List.append_assoc] using this
+      have hne : k ++ Http.colonSp ++ v ≠ [] := by simp [Http.colonSp]
+      have hsplit : splitOnce Http.colonSp (k ++ Http.colonSp ++ v) = some (k, v) := splitOnce_key 0x3A 0x20 k v hc
+      have hrec := ih ((k, v) :: acc) f (fun kv hkv => hok kv (by simp [hkv])) (by simpa using hf)
+      rw [hbytes]
+      unfold Http.readHeaders
+      rw [runFlat_bind, h]
+      simp only [htrim, hne, if_false, hsplit, hrec]
+      simp
+
+example : HeaderOk ([72,111,115,116], [97,46,98,58,56,48]) := by
+  refine ⟨by decide, by decide, by decide, by decide, ⟨[97,46,98,58,56], 48, by decide, by decide⟩, by decide⟩
 
 end Redproxy.Props.C03
